@@ -18,6 +18,7 @@ import (
 	"io"
 	"sort"
 	"strings"
+	"time"
 )
 
 // The property's allocation bound for reading a state file of n bytes: C*n + C0 bytes
@@ -650,10 +651,13 @@ func (w *Worker) evalPerm(c *Case, res *Result) {
 
 // -------------------------------------------------------------------------------- shrinking
 
+// shrinkUntil bounds the time spent on shrinking (a hanging store costs one deadline per attempt).
+var shrinkUntil = time.Now().Add(time.Hour)
+
 // shrinkBytes: a smaller byte string on which still(b) holds. At most budget evaluations.
 func shrinkBytes(b []byte, still func([]byte) bool, budget int) []byte {
 	try := func(c []byte) bool {
-		if budget <= 0 {
+		if budget <= 0 || time.Now().After(shrinkUntil) {
 			return false
 		}
 		budget--
@@ -707,7 +711,7 @@ func shortenStr(s string) []string {
 // shrinkSeq: a smaller sequence case on which still(c) holds.
 func shrinkSeq(c *Case, still func(*Case) bool, budget int) *Case {
 	try := func(x *Case) bool {
-		if budget <= 0 {
+		if budget <= 0 || time.Now().After(shrinkUntil) {
 			return false
 		}
 		budget--
